@@ -92,7 +92,9 @@ def run(ctx, rep):
     n = ctx.pick(5, 30)
     for kind in LT.KINDS:
         for j in range(n):
-            cfg = LT.random_config(ctx.rng, kind, opt_mode="none", iters=ctx.rng.choice([2, 3, 5]), **(dict(init=True) if j == 0 else {}))
+            # tree optimizers run longer: the depth-limit fallbacks of the GP operators are only reached once trees press against max_level
+            cfg = LT.random_config(ctx.rng, kind, opt_mode="none", iters=ctx.rng.choice([6, 8] if kind in LT.TREES else [2, 3, 5]),
+                                   **(dict(init=True) if j == 0 else {}))
             cfg["optimal_value"] = None
             tr = LT.run_trace(dict(cfg))
             perturb(ctx.rng)
